@@ -187,6 +187,19 @@ func (g *gen) genScale() {
 			g.emit("scale %d %d %s %s", 2*w0+1, 2*h0+1, f, src)
 			g.emit("scale %d %d %s %s", w0, h0, f, src)
 		}
+		// chains through an EXACT k-fold intermediate (no fill area), then a request that is not a multiple of it,
+		// and one smaller than the intermediate (must be an error)
+		for _, k := range []int{2, 3, 4} {
+			w1, h1 := k*w0, k*h0
+			for _, q := range [][2]int{{w1*3/2 + 1, h1*3/2 + 1}, {w1*5/2, h1*5/2}, {w1 + 1, h1 + 1}, {w1 - 1, h1}, {w1, h1 - 1}, {w0, h0}, {2 * w1, 2 * h1}, {7 * w0, 7 * h0}} {
+				if q[0] >= 1 && q[1] >= 1 && q[0]*q[1] < 400000 {
+					g.emit("scale %d %d %s scale %d %d %s %s", q[0], q[1], fills[(k+q[0])%len(fills)], w1, h1, fills[k%len(fills)], src)
+				}
+			}
+			if w1*h1*4 < 200000 {
+				g.emit("scale %d %d - scale %d %d - scale %d %d - %s", 7*w0, 7*h0, 2*w1, 2*h1, w1, h1, src)
+			}
+		}
 		// chains of repeated scaling
 		for i := 0; i < g.n(12, 80); i++ {
 			w1, h1 := w0+g.intn(2*w0+2), h0+g.intn(2*h0+2)
